@@ -101,6 +101,14 @@ pub fn alphabet(doc: &Value, size: AlphaSize, max_names: usize, spellings: bool)
     for f in FILTERS {
         base.push(filter_sel(f));
     }
+    if spellings {
+        // filters that reach a member through a bracketed (escaped) name
+        for n in &names {
+            let q = crate::model::render::quote_single(n);
+            base.push(filter_sel(&format!("@[{}]", q)));
+            base.push(filter_sel(&format!("@[{}]==1", q)));
+        }
+    }
     let mut actions = vec![];
     for b in &base {
         actions.push(Seg::child(vec![b.clone()]));
